@@ -481,13 +481,17 @@ def run(ctx):
     in_core = (lambda params: True) if ctx.quick else H.core_scenarios(scenario_params)
     specs = [{
         "module": "checks.c12", "params": params,
-        "bound": bound if in_core(params) else 1,
+        # thorough: two deviations for the quick-tier histories of one runner accepting on
+        # the main thread without a concurrent accept (the full set is out of reach in time)
+        "bound": bound if in_core(params) and (ctx.quick or (
+            len(params.get("phases", ())) == 1 and params["phases"][0]["thread"] == "main"
+            and not params["phases"][0].get("concurrent"))) else 1,
         "opts": {"time_horizon": 60.0, "drain": 2.0, "max_points": 12000,
                  "spin_time": 0.05 if any("spinning" in phase["population"]
                                           for phase in params.get("phases", ())) else 0.0,
                  "free_switch_cost": 1,
                      "time_jump_cost": None if ctx.quick else 1},
-        "budget": 3000 if ctx.quick else 30000,
+        "budget": 3000 if ctx.quick else 12000,
     } for params in scenario_params(ctx.tier)]
     if ctx.quick:
         # the shutdown-right-after-running window only exists between two source lines
